@@ -230,13 +230,18 @@ func (vc *VC) applyContract(st *State, call *ast.CallExpr, c *Contract, callee *
 			st.assume(t)
 		}
 	}
-	if c.RecDec != nil && vc.contract == c && vc.inlineDepth == 0 {
-		// a self-call: the declared measure, evaluated on the callee's arguments now, is non-negative and strictly
-		// below the measure of this invocation at entry
+	if c.RecDec != nil && vc.contract != nil && vc.contract.RecDec != nil && vc.inlineDepth == 0 {
+		// a call between functions that declare a recursion measure (a self-call in particular): the callee's
+		// measure on its arguments now is non-negative and (measure, rank) is lexicographically below the caller's
+		// at entry
 		mNew := vc.evalSpecIntIn(pre, c.RecDec)
 		entrySc := &SpecScope{cur: vc.entry, old: vc.entry, names: vc.entryVals, pkg: vc.pkg, where: vc.fname + " recursion measure"}
-		mOld := vc.evalSpecIntIn(entrySc, c.RecDec)
-		vc.oblige(st, "variant", "recursion", "recursion decreases "+c.RecDecText+" [self-call at "+vc.w.pos(call.Pos())+"]", call.Pos(), smtAnd(app("<=", "0", mNew), app("<", mNew, mOld)))
+		mOld := vc.evalSpecIntIn(entrySc, vc.contract.RecDec)
+		dec := app("<", mNew, mOld)
+		if c.RecRank < vc.contract.RecRank {
+			dec = app("<=", mNew, mOld)
+		}
+		vc.oblige(st, "variant", "recursion", "recursion decreases "+vc.contract.RecDecText+" -> "+c.RecDecText+" [call at "+vc.w.pos(call.Pos())+"]", call.Pos(), smtAnd(app("<=", "0", mNew), dec))
 	}
 	oldSt := st.clone()
 	// closures handed to the callee are verified as callbacks (before the callee's effects are applied,
